@@ -73,11 +73,19 @@ Definition drop_nl (l : list (seg Z)) : list (seg Z) :=
   | [] => l
   end.
 
-(* every produced line is an adjust_line_length-correct image of the corresponding input line *)
-Fixpoint shape_ok_b (n : Z) (style : option Z) (pad : bool)
-         (lines_in lines_out : list (list (seg Z))) : bool :=
-  match lines_in, lines_out with
+(* every produced line is an adjust_line_length-correct image of the corresponding input line;
+   when newline segments are included a line may carry one trailing "\n" segment *)
+Definition line_ok_b (n : Z) (style : option Z) (pad incl : bool)
+           (i o : list (seg Z)) : bool :=
+  adjust_ok_b i n style pad o || (incl && adjust_ok_b i n style pad (drop_nl o)).
+
+Fixpoint all2 {A B} (f : A -> B -> bool) (la : list A) (lb : list B) : bool :=
+  match la, lb with
   | [], [] => true
-  | i :: ins, o :: outs => adjust_ok_b i n style pad (drop_nl o) && shape_ok_b n style pad ins outs
+  | a :: la', b :: lb' => f a b && all2 f la' lb'
   | _, _ => false
   end.
+
+Definition shape_ok_b (n : Z) (style : option Z) (pad incl : bool)
+           (lines_in lines_out : list (list (seg Z))) : bool :=
+  all2 (line_ok_b n style pad incl) lines_in lines_out.
